@@ -8,13 +8,6 @@ pub struct PkgName {
 }
 //@ end
 
-/// the statement's decomposition: split at the last '-'
-pub open spec fn base_of(name: Seq<char>) -> Seq<char> {
-    if last_index_of(name, '-') >= 0 { name.take(last_index_of(name, '-')) } else { name }
-}
-pub open spec fn version_of(name: Seq<char>) -> Seq<char> {
-    if last_index_of(name, '-') >= 0 { name.skip(last_index_of(name, '-') + 1) } else { Seq::<char>::empty() }
-}
 /// version == p ++ "nb" ++ ds with ds 1..18 digits
 pub open spec fn ends_in_nb_digits(v: Seq<char>, ds: Seq<char>) -> bool {
     1 <= ds.len() <= 18 && all_digits(ds) && v.len() >= 2 + ds.len()
